@@ -80,6 +80,8 @@ class Run:
                 if (pat, text) not in self.known_hits:
                     self.known_hits.append((pat, text))
                 return False
+        if replay == "-" and any(r != "-" for _, r, _ in self.violations):
+            return True          # the harness writes schedule files for its first few failures only; those have been reported
         self.violations.append((sig, replay, msg))
         return True
 
@@ -142,6 +144,14 @@ def replay_target(path, default="h_mu"):
         name = default
     if "fine=1" in head:
         env["VERIF_FINE"] = "1"
+    if "plain=1" in head:
+        env["VERIF_PLAIN"] = "1"
+    m = re.search(r"ignore=(\S+)", head)
+    if m:
+        env["VERIF_IGNORE"] = m.group(1)
+    m = re.search(r"\bsb=(\d+)", head)
+    if m:
+        env["VERIF_SB"] = m.group(1)
     m = re.search(r"kthr=(\d+)", head)
     if m:
         defs = kdefs(int(m.group(1)))
